@@ -24,6 +24,7 @@ def check(ctx):
   ctx.rule('C13.R3', 'frame header: declared length = bytes after the length field (calcsize + data_len); data_len and body come from the same never-rewound stream')
   ctx.rule('C13.R4', 'bit-slice algebra: tag bytes are the big-endian 24-bit tag; ReadHeader inverts the header writer for every dispatched reply type and every tag')
   ctx.rule('C13.R5', 'body tables: Tdispatch = contexts, empty dst/dtab, thrift call; Tdiscarded = 3-byte tag + utf-8 reason; Rdispatch reader = status, context skips, status dispatch; type constants = mux table')
+  ctx.rule('C13.R6', 'deadline context: the supplied deadline reaches the 16-byte value unmodified: Deadline(<Deadline.KEY property>), nanoseconds = trunc(10^9 * seconds) (scale/granularity interpretation), packed as !qq (_ts, _timeout) after length 16')
   ctx.decline('value-level round trip of every frame and the Thrift payload itself (C14) are not decided; only length/format/size/bit-layout agreement is')
 
   ser_cls = prog.cls(SER, 'MessageSerializer')
@@ -36,8 +37,10 @@ def check(ctx):
   ctx.floor('C13.R2', 'symbolic-count payloads', n, 1)
   r2_discard(ctx)
   r3_header(ctx)
+  wire.complete_write_rules(ctx, 'C13.R3')
   r4_bits(ctx)
   r5_tables(ctx)
+  r6_deadline(ctx)
 
 
 # ---------------------------------------------------------------------- R2b
@@ -412,3 +415,107 @@ def r5_tables(ctx):
          'marshal map is %s' % mm, 'calls are Tdispatch frames, discards are Tdiscarded frames')
   ctx.ob('C13.R5', init, 'unmarshal map', um.get('MessageType.Rdispatch') == 'self._Unmarshal_Rdispatch' and um.get('MessageType.Rerr') == 'self._Unmarshal_Rerror',
          'unmarshal map is %s' % um, 'Rdispatch and Rerr replies select their decoders by type')
+
+
+# ----------------------------------------------------------------------- R6
+def scale_of(expr, var, env=None):
+  """Abstract value of a numeric expression over one input `var`: (scale, granularity) meaning
+  value = scale * var rounded to a multiple of `granularity` (0 = exact).  None = not of that shape."""
+  env = env or {}
+  if isinstance(expr, ast.Name):
+    if expr.id == var:
+      return (1, 0)
+    if expr.id in env:
+      return scale_of(env[expr.id], var, env)
+    return None
+  if isinstance(expr, ast.Constant) and isinstance(expr.value, (int, float)) and not isinstance(expr.value, bool):
+    return ('const', expr.value)
+  if isinstance(expr, ast.Call) and len(expr.args) == 1 and not expr.keywords:
+    fn = (dotted(expr.func) or '').split('.')[-1]
+    a = scale_of(expr.args[0], var, env)
+    if a is None or a[0] == 'const':
+      return a
+    if fn in ('Long', 'int', 'long', 'floor', 'trunc'):
+      return (a[0], max(a[1], 1))
+    if fn == 'float':
+      return a
+    return None
+  if isinstance(expr, ast.BinOp) and isinstance(expr.op, ast.Mult):
+    l, r = scale_of(expr.left, var, env), scale_of(expr.right, var, env)
+    if l is None or r is None:
+      return None
+    if l[0] == 'const' and r[0] == 'const':
+      return ('const', l[1] * r[1])
+    if l[0] == 'const':
+      l, r = r, l
+    if r[0] != 'const':
+      return None
+    return (l[0] * r[1], l[1] * abs(r[1]))
+  if isinstance(expr, ast.BinOp) and isinstance(expr.op, ast.Pow):
+    l, r = scale_of(expr.left, var, env), scale_of(expr.right, var, env)
+    if l and r and l[0] == 'const' and r[0] == 'const':
+      return ('const', l[1] ** r[1])
+  return None
+
+
+def r6_deadline(ctx):
+  prog = ctx.prog
+  why = ('the second int64 of the com.twitter.finagle.Deadline context must equal the supplied deadline in nanoseconds; truncating before scaling, '
+         'a different scale or a rewritten value makes an independent decoder recover a different deadline')
+  init = prog.func('scales/message.py', 'Deadline.__init__')
+  par = init.params[1]
+  env = {}
+  attrs = {}
+  for st in walk_no_nested(init.node):
+    if isinstance(st, ast.Assign) and len(st.targets) == 1:
+      t = st.targets[0]
+      if isinstance(t, ast.Name):
+        env[t.id] = st.value
+      elif isinstance(t, ast.Attribute) and U(t.value) == 'self':
+        attrs.setdefault(t.attr, []).append(st.value)
+  tv = attrs.get('_timeout', [])
+  sc = scale_of(tv[0], par, env) if len(tv) == 1 else None
+  ctx.ob('C13.R6', init, '_timeout = trunc(10^9 * seconds)', sc is not None and sc[0] == 10 ** 9 and sc[1] <= 1,
+         '_timeout is %s: scale/granularity %s (needs scale 1e9 with granularity <= 1 ns)' % ([U(x) for x in tv], sc), why)
+  ts = attrs.get('_ts', [])
+  ok = False
+  if len(ts) == 1:
+    calls = [c for c in ast.walk(ts[0]) if isinstance(c, ast.Call) and (dotted(c.func) or '').endswith('time.time')]
+    if len(calls) == 1:
+      marker = ast.parse(U(ts[0]).replace(U(calls[0]), '__now'), mode='eval').body
+      sc2 = scale_of(marker, '__now', env)
+      ok = sc2 is not None and sc2[0] == 10 ** 9
+  ctx.ob('C13.R6', init, '_ts = now in nanoseconds', ok, '_ts is %s' % [U(x) for x in ts], why)
+  # the writer packs (ts, timeout) as two int64 after the length 16
+  wc = prog.func(SER, 'MessageSerializer._WriteContext')
+  found = 0
+  for n in walk_no_nested(wc.node):
+    if isinstance(n, ast.If) and isinstance(n.test, ast.Call) and call_name(n.test) == 'isinstance' and U(n.test.args[1]) == 'Deadline':
+      v = U(n.test.args[0])
+      packs = [c for st in n.body for c in ast.walk(st) if isinstance(c, ast.Call) and call_name(c) == 'pack']
+      seq = [(U(c.args[0]), [U(a) for a in c.args[1:]]) for c in packs]
+      flat_fmt = ''.join(f.strip('\'"').lstrip('!>') for f, _ in seq)
+      flat_args = [a for _, args in seq for a in args]
+      okw = flat_fmt == 'hqq' and flat_args == ['16', '%s._ts' % v, '%s._timeout' % v] and all(f.strip('\'"')[:1] in '!>' for f, _ in seq)
+      found += 1
+      ctx.ob('C13.R6', wc, 'Deadline value = length 16, then !qq (_ts, _timeout)', okw, 'Deadline branch packs %s' % seq, why)
+  ctx.ob('C13.R6', wc, 'the context writer has a Deadline branch', found == 1, 'Deadline branches: %d' % found, why)
+  # the sink passes the message's deadline unmodified
+  ap = prog.func(TSINK, 'ThriftMuxMessageSerializerSink.AsyncProcessRequest') if prog.try_func(TSINK, 'ThriftMuxMessageSerializerSink.AsyncProcessRequest') else None
+  if ap is None:
+    cands = [f for f in prog.all_funcs if f.module.rel == TSINK and f.name == 'AsyncProcessRequest' and 'Deadline(' in U(f.node)]
+    if len(cands) != 1:
+      raise AnalysisError('C13.R6: serializer sink AsyncProcessRequest not found')
+    ap = cands[0]
+  n = 0
+  for ev, ex in enum_paths(ctx, ap):
+    for i, e in enumerate(ev):
+      if e.kind == 'call' and call_name(e.node) == 'Deadline':
+        n += 1
+        arg = resolved_text(ev, i, e.node.args[0]) if e.node.args else None
+        okd = arg is not None and arg.replace(' ', '') in ('msg.properties.get(Deadline.KEY)', 'msg.properties[Deadline.KEY]', 'msg.properties.get(Deadline.KEY,None)')
+        ctx.ob('C13.R6', ap, 'Deadline(<the Deadline.KEY property>)', okd, 'Deadline built from %s' % arg, why)
+  ctx.ob('C13.R6', ap, 'a deadline header is built', n >= 1, 'no Deadline(...) construction', why)
+  hdr = [st for st in walk_no_nested(ap.node) if isinstance(st, ast.Assign) and isinstance(st.targets[0], ast.Subscript) and isinstance(st.value, ast.Call) and call_name(st.value) == 'Deadline']
+  ctx.ob('C13.R6', ap, "stored under 'com.twitter.finagle.Deadline'", len(hdr) == 1 and U(hdr[0].targets[0].slice).strip('\'"') == 'com.twitter.finagle.Deadline',
+         'header key is %s' % [U(h.targets[0].slice) for h in hdr], why)
